@@ -84,6 +84,12 @@ type Exec struct {
 	noSafety bool
 	inQuant  int
 	inOld    int // inside old(...): identifiers denote entry values (parameters), not loop variables
+	// E-SCAN mode
+	lite      bool                           // keep store terms inline so that loads of just-stored constants fold
+	mapFn     func(*ssa.Function) *ssa.Function // callee translation (naive-form program -> main program)
+	lazyEnv   func(v ssa.Value) Val          // value of an SSA value defined outside the executed region
+	skipAlloc map[*ssa.Alloc]PtrV            // locals with pre-assigned cells
+	curLabel  string                         // enclosing label (prefix of safety obligation sites)
 }
 
 func newExec(w *World, fn *ssa.Function, props []string) *Exec {
@@ -269,6 +275,10 @@ func (x *Exec) heapGet(s *State, key, sort string) *Term {
 }
 
 func (x *Exec) heapSet(s *State, key string, t *Term) {
+	if x.lite {
+		s.Heap[key] = t
+		return
+	}
 	s.Heap[key] = x.Sc.Define("H_"+sanitize(key), t)
 }
 
@@ -407,10 +417,10 @@ func (x *Exec) strConst(sv string) *Term {
 	key := fmt.Sprintf("strlit:%d", id.ival.Int64())
 	if !x.Assumed[key] {
 		x.Assumed[key] = true
-		x.Sc.Assert(tEq(x.strLen(id), mkInt(int64(len(sv)))))
+		x.Sc.AssertTop(tEq(x.strLen(id), mkInt(int64(len(sv)))))
 		if len(sv) <= 16 {
 			for i := 0; i < len(sv); i++ {
-				x.Sc.Assert(tEq(x.strByte(id, mkInt(int64(i))), mkInt(int64(sv[i]))))
+				x.Sc.AssertTop(tEq(x.strByte(id, mkInt(int64(i))), mkInt(int64(sv[i]))))
 			}
 		}
 	}
@@ -705,7 +715,11 @@ func (x *Exec) safety(s *State, cls string, pos token.Pos, instr ssa.Instruction
 	if cond.isTrue() {
 		return
 	}
-	x.oblige(s, cls, x.exprText(instr, pos), pos, cond, nil)
+	text := x.exprText(instr, pos)
+	if x.curLabel != "" {
+		text = x.curLabel + ":" + text
+	}
+	x.oblige(s, cls, text, pos, cond, nil)
 }
 
 // exprText renders the source expression at an instruction.
@@ -817,7 +831,7 @@ func (x *Exec) elemRead(inner *Term, p PtrV, sort string) *Term {
 		x.Sc.DeclareFun(name, []string{arrSort(sort), SInt, SInt}, sort)
 		a, o, i := mkConst("at_a", arrSort(sort)), mkConst("at_o", SInt), mkConst("at_i", SInt)
 		app := mkApp(name, sort, a, o, i)
-		x.Sc.Assert(tForallPat([]*Term{a, o, i}, mkApp("=", SBool, app, mkApp("select", sort, a, mkApp("+", SInt, o, i))), app))
+		x.Sc.AssertTop(tForallPat([]*Term{a, o, i}, mkApp("=", SBool, app, mkApp("select", sort, a, mkApp("+", SInt, o, i))), app))
 	}
 	return mkApp(name, sort, inner, p.Off, p.Rel)
 }
